@@ -138,7 +138,8 @@ func (n Number) addQuantum(i uint64) Number {
 func (n Number) Less(m Number) bool {
 	switch {
 	case n.Negative && !m.Negative:
-		return true
+		// Negative zero is not less than zero.
+		return n.Value != 0 || m.Value != 0
 	case !n.Negative && m.Negative:
 		return false
 	}
